@@ -399,4 +399,135 @@ theorem run_refines_Own (ls : List Label) (s s' : St) (hinv : Inv s) (h : run Cf
       simp only [absRun, hs, Own.run, hw]
       exact ih s1 (step_inv s s1 l hinv hs) h
 
+/-! ### slices stay within capacity (the model's slices are valid Go slices) -/
+
+def lenOk (h : Heap) (sl : Slice) : Prop := sl.len ≤ (cells h sl.arr).length
+
+theorem lenOk_alloc (h : Heap) (c : List Nat) (sl : Slice) (hlt : sl.arr < h.length) (hok : lenOk h sl) :
+    lenOk (h ++ [c]) sl := by
+  simpa only [lenOk, cells_alloc_lt _ _ _ hlt] using hok
+
+theorem lenOk_write (h : Heap) (a i v : Nat) (sl : Slice) (hne : a ≠ sl.arr) (hok : lenOk h sl) :
+    lenOk (write h a i v) sl := by
+  simpa only [lenOk, cells_write_ne _ _ _ _ _ hne] using hok
+
+theorem length_grow (old : List Nat) (len r newcap : Nat) (h1 : len ≤ old.length) (h2 : len + 1 ≤ newcap) :
+    (grow old len r newcap).length = newcap := by
+  simp only [grow, List.length_append, List.length_take, List.length_cons, List.length_nil,
+    List.length_replicate]
+  omega
+
+structure Cap (s : St) : Prop where
+  cur : ∀ c, s.cur = some c → lenOk s.heap c
+  pool : ∀ p ∈ s.pool, lenOk s.heap p
+  del : ∀ d ∈ s.delivered, lenOk s.heap d.s
+
+theorem Cap_init : Cap St.init := by
+  constructor <;> simp [St.init]
+
+theorem Cap_alloc (s : St) (hinv : Inv s) (hcap : Cap s) (c : List Nat) (n : Nat) (hn : n ≤ c.length) :
+    Cap { s with heap := s.heap ++ [c], cur := some ⟨s.heap.length, n⟩ } := by
+  refine ⟨?_, ?_, ?_⟩
+  · intro x hx
+    simp only [Option.some.injEq] at hx; subst hx
+    simpa only [lenOk, cells_alloc_eq] using hn
+  · intro p hp; exact lenOk_alloc _ _ _ (hinv.poolLt p hp) (hcap.pool p hp)
+  · intro d hd; exact lenOk_alloc _ _ _ (hinv.delLt d hd) (hcap.del d hd)
+
+theorem step_collect_cap (c : Cfg) (s s' : St) (r newcap : Nat) (hinv : Inv s) (hcap : Cap s)
+    (hstep : step c s (.collect r newcap) = some s') : Cap s' := by
+  simp only [step] at hstep
+  split at hstep
+  · split at hstep
+    · rename_i hn
+      simp only [Option.some.injEq] at hstep; subst hstep
+      refine Cap_alloc s hinv hcap _ _ ?_
+      rw [length_grow _ _ _ _ (Nat.zero_le _) hn]; exact hn
+    · cases hstep
+  · rename_i sl hcur
+    split at hstep
+    · rename_i hroom
+      simp only [Option.some.injEq] at hstep; subst hstep
+      refine ⟨?_, ?_, ?_⟩
+      · intro x hx
+        simp only [Option.some.injEq] at hx; subst hx
+        simp only [lenOk, cells_write_eq _ _ _ _ (hinv.curLt sl hcur), List.length_set]
+        exact hroom
+      · intro p hp
+        exact lenOk_write _ _ _ _ _ (fun h => hinv.curPool sl hcur p hp h.symm) (hcap.pool p hp)
+      · intro d hd
+        exact lenOk_write _ _ _ _ _ (fun h => hinv.curDel sl hcur d hd h.symm) (hcap.del d hd)
+    · split at hstep
+      · rename_i hn
+        simp only [Option.some.injEq] at hstep; subst hstep
+        refine Cap_alloc s hinv hcap _ _ ?_
+        rw [length_grow _ _ _ _ (hcap.cur sl hcur) hn]; exact hn
+      · cases hstep
+
+theorem step_cap (s s' : St) (l : Label) (hinv : Inv s) (hcap : Cap s)
+    (hstep : step Cfg.code s l = some s') : Cap s' := by
+  cases l with
+  | collect r n => exact step_collect_cap _ s s' r n hinv hcap hstep
+  | clear =>
+    simp only [step, Option.some.injEq] at hstep; subst hstep
+    refine ⟨?_, hcap.pool, hcap.del⟩
+    intro x hx
+    simp only [Option.map_eq_some_iff] at hx
+    obtain ⟨sl, _, rfl⟩ := hx
+    exact Nat.zero_le _
+  | dispatch g =>
+    simp only [step, Cfg.code] at hstep
+    split at hstep
+    · cases hstep
+    · rename_i sl hcur
+      split at hstep
+      · cases hstep
+      · simp only [if_true] at hstep
+        have hdel : ∀ d ∈ (⟨sl, (cells s.heap sl.arr).take sl.len⟩ :: s.delivered : List Deliv),
+            lenOk s.heap d.s ∧ d.s.arr < s.heap.length := by
+          intro d hd
+          rcases List.mem_cons.1 hd with rfl | hd
+          · exact ⟨hcap.cur sl hcur, hinv.curLt sl hcur⟩
+          · exact ⟨hcap.del d hd, hinv.delLt d hd⟩
+        split at hstep
+        · simp only [Option.some.injEq] at hstep; subst hstep
+          refine ⟨?_, ?_, ?_⟩
+          · intro x hx
+            simp only [Option.some.injEq] at hx; subst hx
+            exact Nat.zero_le _
+          · intro p hp; exact lenOk_alloc _ _ _ (hinv.poolLt p hp) (hcap.pool p hp)
+          · intro d hd; exact lenOk_alloc _ _ _ (hdel d hd).2 (hdel d hd).1
+        · split at hstep
+          · cases hstep
+          · rename_i p hp
+            simp only [Option.some.injEq] at hstep; subst hstep
+            refine ⟨?_, ?_, fun d hd => (hdel d hd).1⟩
+            · intro x hx
+              simp only [Option.some.injEq] at hx; subst hx
+              exact hcap.pool p (List.mem_of_getElem? hp)
+            · intro q hq; exact hcap.pool q (List.mem_of_mem_eraseIdx hq)
+  | finish k =>
+    simp only [step] at hstep
+    split at hstep
+    · cases hstep
+    · rename_i d hd
+      simp only [Option.some.injEq] at hstep; subst hstep
+      refine ⟨hcap.cur, ?_, fun e he => hcap.del e (List.mem_of_mem_eraseIdx he)⟩
+      intro p hp
+      rcases List.mem_cons.1 hp with rfl | hp
+      · exact hcap.del d (List.mem_of_getElem? hd)
+      · exact hcap.pool p hp
+
+theorem run_cap (ls : List Label) (s s' : St) (hinv : Inv s) (hcap : Cap s)
+    (h : run Cfg.code s ls = some s') : Cap s' := by
+  induction ls generalizing s with
+  | nil => simp only [run, Option.some.injEq] at h; rw [← h]; exact hcap
+  | cons l ls ih =>
+    simp only [run] at h
+    cases hs : step Cfg.code s l with
+    | none => simp [hs] at h
+    | some s1 =>
+      simp only [hs] at h
+      exact ih s1 (step_inv s s1 l hinv hs) (step_cap s s1 l hinv hcap hs) h
+
 end VaxisModel.Lemmas.ParserPools
